@@ -204,12 +204,43 @@ def histories():
     return out
 
 
+def _loopback_unusable():
+    """None when 127.0.0.1 behaves as the histories need (a listening port accepts, a closed one refuses at once)"""
+    try:
+        srv = _Server()
+    except OSError as e:
+        return "bind: " + e.__class__.__name__
+    try:
+        c = socket.socket()
+        c.settimeout(3)
+        try:
+            c.connect(("127.0.0.1", srv.port))
+            if c.recv(1) != b"":
+                return "accept-and-close server did not close"
+        except OSError as e:
+            return "connect: " + e.__class__.__name__
+        finally:
+            c.close()
+        c = socket.socket()
+        c.settimeout(3)
+        try:
+            c.connect(("127.0.0.1", _closed_port()))
+            return "a closed port accepted"
+        except ConnectionRefusedError:
+            return None
+        except OSError as e:
+            return "closed port: " + e.__class__.__name__
+        finally:
+            c.close()
+    finally:
+        srv.close()
+
+
 def check(ctx):
     n = 0
-    try:
-        _Server().close()
-    except OSError as e:                  # no loopback interface in this environment: nothing can be driven
-        ctx.coverage["real_dispatcher_histories"] = "not run: loopback sockets unavailable (%s)" % e.__class__.__name__
+    why = _loopback_unusable()
+    if why:                               # no (ordinary) loopback interface in this environment: nothing can be driven
+        ctx.coverage["real_dispatcher_histories"] = "not run: loopback sockets unusable (%s)" % why
         return 0
     for h, kind, kname in histories():
         steps, fail = run_history(h, kind)
